@@ -49,7 +49,10 @@ MUST_HIT = ["cat:IDENTICAL", "cat:LINEAR", "cat:SCALE-LINEAR", "cat:TEXTTABLE", 
             "valid-internal:true", "valid-physical:true", "valid-physical:false", "clause:mc-encode",
             "texttable:default-i2p", "texttable:default-p2i", "ratfunc:with-inverse", "tabintp:int-result",
             "dop:decode", "dop:encode", "wrong-type", "compare", "ratfunc:roundtrip", "texttable:roundtrip",
-            "tabintp:descending", "tabintp:flat", "one-sided-scale"]
+            "tabintp:descending", "tabintp:flat", "one-sided-scale",
+            "scale-linear:sign-change-across-zero", "scale-linear:plateau-monotone", "scale-linear:direct-sign-change",
+            "clause:ambiguous-encode", "ratfunc:den-longer-i2p", "ratfunc:den-longer-p2i",
+            "texttable:range-inverse-zero"]
 
 
 # ---------------------------------------------------------------------------
@@ -322,6 +325,8 @@ class Judge:
             self.struct_features["odx_invertible"] = self.ru.odx_invertible()   # under odxtools' reading of one-sided limits
         if self.cat == "TAB-INTP":
             self.struct_features["tab_shape"] = self._tab_shape()
+        self.mixed_signs = (self.cat == "SCALE-LINEAR" and self.neutral
+                            and any(s.slope > 0 for s in self.ru.segs) and any(s.slope < 0 for s in self.ru.segs))
         self.objs = []
         from odxtools.exceptions import OdxError
         self.OdxError = OdxError
@@ -579,6 +584,30 @@ class Judge:
                     return True
         return False
 
+    def ambiguous_preimages(self, p) -> bool:
+        """SCALE-LINEAR with slopes of both signs is never invertible (ODX 7.3.6.6.4, quoted in
+        scalelinearcompumethod.py).  True if p certainly is the image of two valid internal values that lie
+        on scales of opposite slope sign, i.e. no physical->internal conversion of p is defined."""
+        if not self.mixed_signs or not (refcompu.is_num(p) and refcompu.admissible(p, self.pt)):
+            return False
+        ref, y, signs = self.ru, F(p), set()
+        for s in ref.segs:
+            if s.slope == 0:
+                continue
+            x = s.finv(y)
+            cands = [x] if self.it in FLOAT_TYPES else [F(math.floor(x)), F(math.ceil(x))]
+            for c in cands:
+                if ref._first_lin(c) is not s:
+                    continue
+                fy = s.f(c)
+                if self.pt in INT_TYPES:
+                    hit = abs(fy - y) < F(1, 2) - 4 * s.f_tol(c)
+                else:
+                    hit = fy == y and s.exact
+                if hit:
+                    signs.add(s.slope > 0)
+        return len(signs) == 2
+
     def judge_physical(self, p):
         ru, rp = self.ru, self.rp
         exp = ru.valid_physical(p)
@@ -601,6 +630,9 @@ class Judge:
         else:
             ref_state = "one-sided"
         in_mc = self.mc_image(p)
+        ambiguous = self.ambiguous_preimages(p)
+        if ambiguous:
+            self.classes.add("clause:ambiguous-encode")
         nontrivial = self.cat != "IDENTICAL"
         for path, dop, cm in self.objs:
             self.counts["eval"] += 1
@@ -628,6 +660,11 @@ class Judge:
                               f"convert_physical_to_internal raised {type(b).__name__}: {b}", path, "p", p,
                               exc=type(b).__name__, exc_obj=b, ref_state=ref_state,
                               default_i2p=self._has_default("i2p"), default_p2i=self._has_default("p2i"))
+                    continue
+                if ambiguous:
+                    self.fail("ambiguous-encode", f"{p!r} is the image of internal values on a rising and on a falling "
+                              f"scale of a SCALE-LINEAR method (not invertible), but it is declared valid and "
+                              f"convert_physical_to_internal silently returns {b!r}", path, "p", p, mode="silently-encoded")
                     continue
                 if rb is not None and not rb.admits(b):
                     self.fail("p2i-value", f"convert_physical_to_internal({p!r}) = {b!r}, expected {rb.describe()}",
@@ -782,7 +819,31 @@ class Judge:
             self.classes.add("scale-linear:monotone-continuous")
         if self.cat == "SCALE-LINEAR" and self.neutral and not self.ru.odx_invertible():
             self.classes.add("scale-linear:not-invertible")
+        if self.cat == "SCALE-LINEAR" and self.neutral and len(self.ru.segs) >= 3:
+            segs = self.ru.segs
+            cont = all(a.hi.bounded and b.lo.bounded and a.hi.value == b.lo.value and
+                       a.f(a.hi.value) == b.f(b.lo.value) for a, b in zip(segs, segs[1:]))
+            if cont:
+                pat = "".join("+" if s.slope > 0 else "-" if s.slope < 0 else "0" for s in segs)
+                core_pat = pat.strip("0")
+                import re as _re
+                if _re.search(r"\+0+-|-0+\+", pat):
+                    self.classes.add("scale-linear:sign-change-across-zero")
+                if "0" in core_pat and not ("+" in pat and "-" in pat):
+                    self.classes.add("scale-linear:plateau-monotone")
+                if "+-" in pat or "-+" in pat:
+                    self.classes.add("scale-linear:direct-sign-change")
+        if self.cat in ("RAT-FUNC", "SCALE-RAT-FUNC"):
+            for side in ("i2p", "p2i"):
+                for sc in (ir.get(side) or {}).get("scales") or []:
+                    if len(sc.get("den") or []) > len(sc.get("num") or []):
+                        self.classes.add(f"ratfunc:den-longer-{side}")
         if self.cat == "TEXTTABLE":
+            for sc in ir["i2p"].get("scales") or []:
+                lo, hi, inv = sc.get("lo"), sc.get("hi"), sc.get("inv")
+                if lo and hi and inv and lo.get("v") is not None and inv.get("v") is not None \
+                        and refcompu.parse_int_text(inv["v"]) == 0 and refcompu.parse_int_text(lo["v"]) != 0:
+                    self.classes.add("texttable:range-inverse-zero")
             if self._has_default("i2p"):
                 self.classes.add("texttable:default-i2p")
             if self._has_default("p2i"):
@@ -958,13 +1019,24 @@ def strategies():
         vals = draw(st.lists(dom_value(it, bits), min_size=n, max_size=n, unique=True))
         return sorted(vals)
 
+    # slope sign patterns of continuous piecewise-linear shapes with >= 3 scales: plateaus inside
+    # monotone functions (must stay invertible) and sign changes directly or across plateaus
+    # ('hat' / 'V' shapes, never invertible)
+    SHAPES = ["+0+", "-0-", "+0-", "-0+", "0+0-", "0-0+", "+0-0", "+00-", "-00+", "++0-", "+0--", "+0+0", "0+0+",
+              "+-+", "+-0", "0+-", "+0-+", "+0+-", "-0+0", "+0+", "+0-", "-0+"]
+
     @st.composite
-    def scale_linear_mc(draw):
-        """monotone continuous by construction"""
+    def scale_linear_mc(draw, shaped=False):
+        """continuous by construction; monotone unless `shaped` (explicit slope sign pattern)"""
         it, pt, bits = draw(type_pair())
         if pt in INT_TYPES and it in FLOAT_TYPES:
             it = draw(st.sampled_from(["A_INT32", "A_UINT32"]))
-        n = draw(st.integers(2, 4))
+        pattern = None
+        if shaped:
+            pattern = draw(st.sampled_from(SHAPES))
+            n = len(pattern)
+        else:
+            n = draw(st.integers(2, 4))
         bs = [F(b) for b in draw(breakpoints(it, bits, n + 1))]
         sign = draw(st.sampled_from([1, -1]))
         if pt in INT_TYPES:
@@ -976,6 +1048,9 @@ def strategies():
             slopes = [sign * F(draw(st.sampled_from(["0.5", "0.25", "1", "2", "1.5", "3", "0.125"]))) for _ in range(n)]
             y = F(draw(st.integers(-80, 80)), 4)
         zero_at = draw(st.integers(-1, 3 * n))
+        if pattern is not None:
+            zero_at = -1
+            slopes = [abs(m) * {"+": 1, "-": -1, "0": 0}[c] for m, c in zip(slopes, pattern)]
         scales = []
         for k in range(n):
             m = slopes[k]                       # numerator slope, effective slope is m/d
@@ -1056,13 +1131,22 @@ def strategies():
         texts = draw(st.lists(st.sampled_from(["on", "off", "a<b&c", "x y", "äö", "t3", "t4", "Reserved", "0"]),
                               min_size=n, max_size=n, unique=True))
         scales = []
-        overlapping = draw(st.integers(0, 5)) == 0
-        bs = draw(breakpoints(it, bits, 2 * n))
+        zero_inverse = draw(st.integers(0, 2)) == 0     # a range scale around 0 whose inverse value is 0
+        overlapping = not zero_inverse and draw(st.integers(0, 5)) == 0
+        if zero_inverse:
+            it = "A_INT32"
+            a0, b0 = -draw(st.integers(1, 100)), draw(st.integers(1, 60))
+            rest = sorted(draw(st.lists(st.integers(b0 + 1, 127), min_size=2 * n - 2, max_size=2 * n - 2, unique=True)))
+            bs = [a0, b0] + rest
+        else:
+            bs = draw(breakpoints(it, bits, 2 * n))
         for k in range(n):
             a, b = bs[2 * k], bs[2 * k + 1]
             if overlapping:
                 a, b = sorted([draw(dom_value(it, bits)), draw(dom_value(it, bits))])
             style = draw(st.sampled_from(["point-lo", "point-lo", "point-eq", "point-hi", "range", "range", "range"]))
+            if zero_inverse and k == 0:
+                style = "range"
             sc = {"const": {"vt": texts[k]}}
             if style == "point-lo":
                 sc["lo"] = {"v": str(a), "t": draw(st.sampled_from([None, "CLOSED"]))}
@@ -1077,8 +1161,14 @@ def strategies():
                 sc["lo"] = draw(limit(a, it))
                 sc["hi"] = draw(limit(b, it))
                 lo_closed = sc["lo"]["v"] is not None and sc["lo"]["t"] in (None, "CLOSED")
-                if not lo_closed or draw(st.booleans()):
-                    sc["inv"] = {"v": str(draw(st.integers(min(a + 1, b), b)) if b > a else a)}
+                if zero_inverse and k == 0:
+                    if sc["lo"]["v"] is None:
+                        sc["lo"] = {"v": str(a), "t": draw(st.sampled_from([None, "CLOSED", "OPEN"]))}
+                    sc["inv"] = {"v": draw(st.sampled_from(["0", "0", "0x0"]))}
+                elif not lo_closed or draw(st.booleans()):
+                    inside = draw(st.integers(min(a + 1, b), b)) if b > a else a
+                    cands = [inside, b, inside] + ([a] if lo_closed else []) + ([0] if a < 0 < b else [])
+                    sc["inv"] = {"v": str(draw(st.sampled_from(cands)))}
             scales.append(sc)
         ir = {"cat": "TEXTTABLE", "it": it, "pt": pt, "bits": bits, "i2p": {"scales": scales}}
         if draw(st.integers(0, 2)) == 0:
@@ -1096,8 +1186,11 @@ def strategies():
         lo = {"v": _txt(a, it), "t": lo_kind}
         hi = {"v": _txt(b, it), "t": hi_kind}
         fa, fb = F(a), F(b)
-        mode = draw(st.sampled_from(["moebius", "moebius", "linear", "quadratic", "quadratic-over-linear"]))
+        mode = draw(st.sampled_from(["moebius", "moebius", "linear", "quadratic", "quadratic-over-linear",
+                                     "recip", "recip", "recip-inv", "recip-inv", "lin-over-quad"]))
         ints = st.integers(-6, 6)
+        if mode == "recip-inv" and fa - 1 <= 0 <= fb + 1:
+            mode = "recip"                      # (k - a x)/x needs a domain away from 0
         if mode == "linear":
             n0, n1 = draw(ints), draw(ints.filter(lambda x: x != 0))
             d0 = draw(st.sampled_from([1, 1, 2, 4, -2, 3]))
@@ -1117,6 +1210,36 @@ def strategies():
                 n0 += 1
             num, den = [n0, n1], [d0, d1]
             inv_num, inv_den = [n0, -d0], [-n1, d1]     # x = (n0 - d0 p)/(d1 p - n1)
+        elif mode == "recip":
+            # k/(d0 + d1 x): denominator of higher order than the numerator; inverse (k - d0 p)/(d1 p)
+            k = draw(st.integers(-200, 200).filter(lambda x: x != 0))
+            d1 = draw(ints.filter(lambda x: x != 0))
+            side = draw(st.booleans())
+            pole = (fa - draw(st.integers(2, 9))) if side else (fb + draw(st.integers(2, 9)))
+            d0f = -pole * d1
+            if d0f.denominator != 1:
+                d1 = d1 * d0f.denominator
+                d0f = -pole * d1
+            num, den = [k], [int(d0f), d1]
+            inv_num, inv_den = [k, -int(d0f)], [0, d1]
+        elif mode == "recip-inv":
+            # (k - a x)/(d1 x) on a domain away from 0; its inverse k/(a + d1 p) has the longer denominator
+            k = draw(st.integers(-200, 200).filter(lambda x: x != 0))
+            a_ = draw(ints)
+            d1 = draw(st.sampled_from([1, 1, 2, -1, 3]))
+            num, den = [k, -a_], [0, d1]
+            inv_num, inv_den = [k], [a_, d1]
+        elif mode == "lin-over-quad":
+            # (n0 + n1 x)/(d0 + d1 x + x^2) with a positive definite denominator (no real pole)
+            n0, n1 = draw(ints), draw(ints)
+            d1 = draw(st.integers(-4, 4))
+            d0 = d1 * d1 // 4 + draw(st.integers(1, 9))
+            if draw(st.booleans()):
+                num = [draw(st.integers(-200, 200).filter(lambda x: x != 0))]
+            else:
+                num = [n0, n1]
+            den = [d0, d1, 1]
+            inv_num, inv_den = [draw(ints)], [draw(st.integers(1, 9)), 0, 1]
         elif mode == "quadratic":
             num, den = [draw(ints), draw(ints), draw(ints.filter(lambda x: x != 0))], [draw(st.sampled_from([1, 2, 4, -1]))]
             inv_num, inv_den = [draw(ints), draw(ints)], [draw(st.sampled_from([1, 2]))]
@@ -1135,7 +1258,7 @@ def strategies():
             seg = refcompu.RatSeg(fw, it, pt, "unbounded")
             ya, _ = seg.eval(fa)
             yb, _ = seg.eval(fb)
-            if mode in ("linear", "moebius"):
+            if mode in ("linear", "moebius", "recip", "recip-inv"):
                 # image interval; open/closed follow the internal limits
                 (y0, k0), (y1, k1) = sorted([(ya, lo_kind), (yb, hi_kind)], key=lambda t: t[0])
                 if pt in INT_TYPES:
@@ -1154,7 +1277,11 @@ def strategies():
             if len(inv_den) == 2 and inv_den[1] != 0:
                 root = F(-inv_den[0], inv_den[1])
                 if F(blo["v"]) - 1 <= root <= F(bhi["v"]) + 1:
-                    bw = "pole"
+                    if mode in ("recip", "recip-inv") and not (F(blo["v"]) <= root <= F(bhi["v"])) \
+                            and pt in FLOAT_TYPES and float(ya) == ya and float(yb) == yb:
+                        pass               # exact image limits, the pole is outside them: keep
+                    else:
+                        bw = "pole"
         return fw, bw
 
     @st.composite
@@ -1198,7 +1325,7 @@ def strategies():
     methods = {
         "IDENTICAL": identical(),
         "LINEAR": linear(),
-        "SCALE-LINEAR": st.one_of(scale_linear_mc(), scale_linear_free()),
+        "SCALE-LINEAR": st.one_of(scale_linear_mc(), scale_linear_free(), scale_linear_mc(shaped=True)),
         "TAB-INTP": tab_intp(),
         "TEXTTABLE": texttable(),
         "RAT-FUNC": rat_func(False),
@@ -1254,8 +1381,8 @@ def replay(case) -> list:
 # ---------------------------------------------------------------------------
 CATS = ["IDENTICAL", "LINEAR", "SCALE-LINEAR", "TAB-INTP", "TEXTTABLE", "RAT-FUNC", "SCALE-RAT-FUNC"]
 BUDGET = {  # methods per shard (quick, thorough)
-    "IDENTICAL": (40, 300), "LINEAR": (110, 1000), "SCALE-LINEAR": (90, 800), "TAB-INTP": (110, 1000),
-    "TEXTTABLE": (150, 1500), "RAT-FUNC": (110, 1000), "SCALE-RAT-FUNC": (80, 700), "compare": (400, 4000),
+    "IDENTICAL": (60, 300), "LINEAR": (200, 1000), "SCALE-LINEAR": (200, 800), "TAB-INTP": (200, 1000),
+    "TEXTTABLE": (300, 1500), "RAT-FUNC": (220, 1000), "SCALE-RAT-FUNC": (160, 700), "compare": (600, 4000),
 }
 
 
